@@ -8,7 +8,12 @@ namespace
 {
 void run(vh::Case &c, bool logs)
 {
-  bs::Cfg cfg = bs::gen_cfg(c.rd, logs, 2);
+  // mostly this property's own scenario shapes, but also the shapes biased towards the other two
+  // batch-processor properties (the oracle is a predicate over any history)
+  static const int biases[] = {2, 1, 3};
+  int bias                  = biases[c.rd.weighted({6, 2, 2})];
+  bs::Cfg cfg               = bs::gen_cfg(c.rd, logs, bias);
+  c.tag("bias-" + std::to_string(bias));
   c.note(bs::describe(cfg));
   bs::History h;
   if (logs)
@@ -36,16 +41,20 @@ void run(vh::Case &c, bool logs)
   }
   (void)dropped_full;
   (void)export_after_flush;
-  c.nontrivial = bs::control_overlaps(h) || cfg.export_fail_every || !cfg.xflush_result || !cfg.xshutdown_result || cfg.export_latency_us || cfg.xflush_latency_us || cfg.xshutdown_latency_us;
+  bool decided = false;  // a ForceFlush returned true, or Shutdown was requested explicitly
+  for (auto &f : h.ctl)
+    decided = decided || (f.is_flush ? f.result : f.thread != -2);
+  c.nontrivial = decided && (bs::control_overlaps(h) || cfg.export_fail_every || !cfg.xflush_result || !cfg.xshutdown_result ||
+                             cfg.export_latency_us || cfg.xflush_latency_us || cfg.xshutdown_latency_us);
 }
 }  // namespace
 
-VH_TARGET(bsp_sched, 4, "BatchSpanProcessor: non-trivial when a ForceFlush/Shutdown call overlapped (by logical stamps) a produce call or another control call, or an exporter fault/latency was injected; distinct = distinct (scenario, schedule taken)")
+VH_TARGET(bsp_sched, 4, "BatchSpanProcessor: non-trivial when a ForceFlush returned true or Shutdown was called explicitly, and a ForceFlush/Shutdown call overlapped (by logical stamps) a produce call or another control call, or an exporter fault/latency was injected; distinct = distinct (scenario, schedule taken)")
 {
   run(c, false);
 }
 
-VH_TARGET(blp_sched, 4, "BatchLogRecordProcessor: non-trivial when a ForceFlush/Shutdown call overlapped (by logical stamps) a produce call or another control call, or an exporter fault/latency was injected; distinct = distinct (scenario, schedule taken)")
+VH_TARGET(blp_sched, 4, "BatchLogRecordProcessor: non-trivial when a ForceFlush returned true or Shutdown was called explicitly, and a ForceFlush/Shutdown call overlapped (by logical stamps) a produce call or another control call, or an exporter fault/latency was injected; distinct = distinct (scenario, schedule taken)")
 {
   run(c, true);
 }
